@@ -32,7 +32,9 @@ Definition check (c : c05case) : verdict :=
   match c with
   | CWrite tol li dflt ch out =>
       let lay := layout_ix li in
-      let sn := write_snaps tbl ch in                       (* shared by model and domain check *)
+      (* shared by model and domain check; not computed when the writer's assert on the number of tempo points fails
+         first (then neither the model nor the domain check looks at it) *)
+      let sn := if (length (w_bpms ch) <? MAX_BPMS)%nat then write_snaps tbl ch else None in
       let m := bms_write_with tbl lay dflt ch sn in
       let wf := wf_wchart_with tol tbl lay dflt ch sn in
       {| corr_ok := match m, out with
